@@ -725,6 +725,17 @@ def make_slow_store(slow_k: int, lat: Any, land_first: bool) -> Any:
                     return found
                 return await super().query(query)
 
+            async def append_tick(self, run_id: str, tick_data: Any) -> None:
+                # slow_k == -2: EVERY tick-log append takes `lat` seconds (the row lands before or after the wait)
+                if self.slow_k != -2:
+                    await super().append_tick(run_id, tick_data)
+                elif self.land_first:
+                    await super().append_tick(run_id, tick_data)
+                    await asyncio.sleep(self.lat)
+                else:
+                    await asyncio.sleep(self.lat)
+                    await super().append_tick(run_id, tick_data)
+
             async def update_handler_status(self, run_id: str, **kw: Any) -> None:
                 k = self.n_status_writes
                 self.n_status_writes += 1
